@@ -256,6 +256,28 @@ func (c *Ctx) specialInputs(name string) []wfInput {
 		o := plainSam("other")
 		o.Tags = map[string]any{"XH": []byte{9}}
 		out = append(out, samInput(name, []string{"@HD\tVN:1", "@HD\tVN:1"}, []*sam.SAM{mk(), mk(), mk(), o, mk(), plainSam("notags"), mk()}, "identical lines (with H, Z, i, A, f tags) repeated"))
+		// the SAME tag name in consecutive records with the SAME value text under different types (XS:i:7, XS:Z:7, XS:A:7,
+		// XS:f:7; XT:i:10, XT:H:10, XT:Z:10): what one record's tag was must not colour the next record's
+		retyped := func(vals ...any) []*sam.SAM {
+			var rs []*sam.SAM
+			for i, v := range vals {
+				r := plainSam(fmt.Sprintf("q%d", i))
+				r.Tags = map[string]any{"XS": v, "NM": i}
+				rs = append(rs, r)
+			}
+			return rs
+		}
+		for _, vals := range [][]any{
+			{7, "7", byte('7'), 7.0, "7", 7},
+			{7.0, "7", 7, byte('7')},
+			{10, []byte{0x10}, "10", 10.0, []byte{0x10}, 10},
+			{"10", 10, "10", []byte{0x10}},
+			{0, "0", byte('0'), 0.0},
+			{-3, "-3", -3.0, "-3"},
+			{1.5, "1.5", 1.5},
+		} {
+			out = append(out, samInput(name, nil, retyped(vals...), "one tag name, the same value text, different types in consecutive records"))
+		}
 	case "bed":
 		r := &bed.BED{N: 12, Chrom: "c", ChromStart: 1, ChromEnd: 9, Name: "dup", Score: 5, Strand: "+", ThickStart: 2, ThickEnd: 3, ItemRGB: [3]byte{1, 2, 3}, BlockCount: 2, BlockSizes: []int{1, 2}, BlockStarts: []int{0, 5}}
 		out = append(out, bedInput([]*bed.BED{r, r, r}, "identical lines repeated"))
@@ -3230,5 +3252,152 @@ func translateLongBytes(c *Ctx) {
 			}
 			c.add(Case{Kind: "translate-every-byte", Nontrivial: true, Oracle: bad, Note: fmt.Sprintf("Translate on %d bases, every byte value at position %d, each call twice", n, pos)})
 		}
+	}
+}
+
+// runTrieHistoryQuiet: the same history as runTrieHistory but WITHOUT looking at the trie after every step (lookups
+// and iterations between the updates refresh or repair whatever an implementation remembers from call to call);
+// the results of the history's own operations are checked, and only at the end is everything observed: ForEach,
+// then Has on every probe through ONE reused buffer (same backing array, same offset, different contents), in two
+// orders, then ForEach again.
+func runTrieHistoryQuiet(c *Ctx, ops []string, probes []string, kind string) {
+	t := trie.New()
+	ref := refSet{}
+	oracle := ""
+	fail := func(s string) {
+		if oracle == "" {
+			oracle = s
+		}
+	}
+	st := safe(func() string {
+		for step, op := range ops {
+			arg := string(unhx(op[1:]))
+			switch op[0] {
+			case 'a':
+				t.Add([]byte(arg))
+				ref.add(arg)
+			case 'd':
+				got := t.Delete([]byte(arg))
+				want := true
+				if arg != "" {
+					want = ref.del(arg)
+				}
+				if got != want {
+					fail(fmt.Sprintf("step %d Delete(%q) returned %v, want %v (no observation between the steps)", step, arg, got, want))
+				}
+			case 'h':
+				if got := t.Has([]byte(arg)); got != ref.has(arg) {
+					fail(fmt.Sprintf("step %d Has(%q) = %v (no observation between the steps)", step, arg, got))
+				}
+			case 'e':
+				if s, _ := trieMembers(t); s != ref.members() {
+					fail(fmt.Sprintf("step %d ForEach reports %s, members are %s (no observation between the steps)", step, s, ref.members()))
+				}
+			}
+		}
+		if s, _ := trieMembers(t); s != ref.members() {
+			fail(fmt.Sprintf("at the end of a history without observations in between: ForEach %s, want %s", s, ref.members()))
+		}
+		buf := make([]byte, 64)
+		sorted := append([]string(nil), probes...)
+		sort.Slice(sorted, func(i, j int) bool {
+			if len(sorted[i]) != len(sorted[j]) {
+				return len(sorted[i]) < len(sorted[j])
+			}
+			return sorted[i] < sorted[j]
+		})
+		for pass := 0; pass < 2; pass++ {
+			for i := range sorted {
+				p := sorted[i]
+				if pass == 1 {
+					p = sorted[len(sorted)-1-i]
+				}
+				if len(p) > len(buf) {
+					continue
+				}
+				q := buf[:len(p)]
+				copy(q, p)
+				if got := t.Has(q); got != ref.has(p) {
+					fail(fmt.Sprintf("Has(%q) = %v through a buffer that held the previous query (same length, other contents)", p, got))
+				}
+			}
+		}
+		if s, _ := trieMembers(t); s != ref.members() {
+			fail(fmt.Sprintf("ForEach after the final lookups: %s, want %s", s, ref.members()))
+		}
+		return ""
+	})
+	if st == "PANIC" {
+		fail("the trie panicked during a history without observations in between")
+	}
+	c.add(Case{Kind: kind + "-quiet", Nontrivial: len(ops) > 2, Oracle: oracle, Note: "trie history (observed only at the end) " + trunc(strings.Join(ops, " "), 300)})
+}
+
+// trieRound11: short scripted histories, observed only at the end, around what one call may leave behind for the next:
+// a failed lookup that matched a prefix, then a Delete that prunes that prefix's node, then an Add below the prefix;
+// an iteration, then one child of a node replaced by another (Delete + Add), then an iteration; lookups between.
+func trieRound11(c *Ctx) {
+	for i := 0; i < c.n(30); i++ {
+		al := []byte("acgt")
+		p := c.bytesFrom(al, 1+c.rng.Intn(8))
+		tail := c.bytesFrom(al, 1+c.rng.Intn(4))
+		b := append(append([]byte(nil), p...), tail...)
+		q := append(append([]byte(nil), p...), c.bytesFrom(al, 1+c.rng.Intn(3))...)
+		y := append(append([]byte(nil), p...), c.bytesFrom(al, 1+c.rng.Intn(3))...)
+		other := c.bytesFrom(al, 1+c.rng.Intn(5))
+		h := func(s []byte) string { return hx(s) }
+		var ops []string
+		switch i % 4 {
+		case 0: // failed lookup under p, p pruned away, then an Add under p
+			ops = []string{"a" + h(b), "a" + h(other), "h" + h(q), "d" + h(b), "a" + h(y)}
+		case 1: // the same with the lookup after a no-op Add of the prefix itself
+			ops = []string{"a" + h(b), "a" + h(p), "h" + h(q), "d" + h(b), "a" + h(y), "h" + h(q)}
+		case 2: // iterate, replace one child by another, iterate
+			x1 := append(append([]byte(nil), p...), 'a')
+			x2 := append(append([]byte(nil), p...), 'c')
+			x3 := append(append([]byte(nil), p...), 'g')
+			ops = []string{"a" + h(x1), "a" + h(x3), "e", "d" + h(x1), "a" + h(x2), "e", "d" + h(x3), "a" + h(x1), "e"}
+		case 3: // lookups of the same length back to back, updates only before them
+			ops = []string{"a" + h(b), "a" + h(other), "h" + h(b), "h" + h(q), "h" + h(y), "h" + h(b), "d" + h(b), "h" + h(b), "h" + h(q)}
+		}
+		probes := []string{string(p), string(b), string(q), string(y), string(other), "", string(p[:len(p)/2])}
+		runTrieHistoryQuiet(c, ops, probes, "scripted")
+	}
+}
+
+// ncbiHugeLines: a valid table with one physical line of 17 MiB (thorough 70 MiB): a comment, a header padded with
+// blanks, a row padded with blanks -- "whatever the amount of whitespace and comment lines".
+func ncbiHugeLines(c *Ctx) {
+	n := 17<<20 + 1
+	if c.thor {
+		n = 70 << 20
+	}
+	pad := bytes.Repeat([]byte(" "), n)
+	cmt := append(append([]byte("#"), bytes.Repeat([]byte("x"), n)...), '\n')
+	tables := map[string][]byte{
+		"a comment line":          append(append([]byte(nil), cmt...), []byte("   A  B\nA  1  -2\nB  2  3\n")...),
+		"a header row with blanks": append(append([]byte("   A"), pad...), []byte("  B\nA  1  -2\nB  2  3\n")...),
+		"a data row with blanks":   append(append([]byte("   A  B\nA  1"), pad...), []byte("  -2\nB  2  3\n")...),
+	}
+	want := "1,-2,2,3"
+	var names []string
+	for k := range tables {
+		names = append(names, k)
+	}
+	sort.Strings(names)
+	for _, name := range names {
+		data := tables[name]
+		var m align.SubstitutionMatrix
+		var err error
+		st := safe(func() string { m, err = smtext.ReadNCBI(bytes.NewReader(data)); return "" })
+		oracle := ""
+		if st == "PANIC" {
+			oracle = "ReadNCBI panicked"
+		} else if err != nil {
+			oracle = fmt.Sprintf("ReadNCBI fails on a valid table with %s of %d bytes: %v", name, n, err)
+		} else if got := fmt.Sprintf("%v,%v,%v,%v", m[[2]byte{'A', 'A'}], m[[2]byte{'A', 'B'}], m[[2]byte{'B', 'A'}], m[[2]byte{'B', 'B'}]); got != want || len(m) != 4 {
+			oracle = fmt.Sprintf("ReadNCBI of a table with %s of %d bytes gives %s (%d pairs), want %s", name, n, got, len(m), want)
+		}
+		c.add(Case{Kind: "ncbi-huge-line", Nontrivial: true, Oracle: oracle, Note: fmt.Sprintf("ReadNCBI of a 2x2 table with %s of %d bytes", name, n)})
 	}
 }
